@@ -142,10 +142,12 @@ func safeParse(text string) parseResult {
 }
 
 var gapText = map[string]string{"": "", "sp": " ", "sp2": "  ", "tab": "\t", "lf": "\n", "crlf": "\r\n", "tc": " # c\n", "cl": "\n# c\n",
-	"docbt": "\n# uses `backticks` and \"quotes\"\n# second line\n",
+	"docbt": "\n# uses `backticks` and \"quotes\", %d %s ${x} $(y) \\n \\\n# second line\n",
 	"ec":    "\n#\n", "doc1": "\n# d1\n", "doc2": "\n# d1\n# d2\n", "docblank": "\n# d\n\n", "endc": "\n# c",
 	// files with CRLF line ends: the comment block above a member, a trailing comment
 	"doc1cr": "\r\n# d1\r\n", "doc2cr": "\r\n# d1\r\n# d2\r\n", "tccr": " # c\r\n",
+	// a block, a blank line, another block; comment lines indented with spaces / a tab
+	"doc2blk": "\n# d\n\n# d1\n", "docind": "\n   # d1\n\t# d2\n",
 	// documentation that mentions what the generator emits or searches its own output for
 	"docwords": "\n# formats with fmt.Sprintf, keeps a json.RawMessage, takes a context.Context\n",
 	"docph":    "\n# the @IMPORTS@ of the generated file\n"}
@@ -180,7 +182,7 @@ func canonLayout(toks []tok) []string {
 
 // kinds the grammar permits at gap i (between toks[i-1] and toks[i]; 0 = before the first, len = after the last)
 func allowedKinds(toks []tok, i int) []string {
-	all := []string{"", "sp", "sp2", "tab", "lf", "crlf", "tc", "cl", "ec", "doc1", "doc2", "docblank", "doc1cr", "doc2cr", "tccr"}
+	all := []string{"", "sp", "sp2", "tab", "lf", "crlf", "tc", "cl", "ec", "doc1", "doc2", "docblank", "doc1cr", "doc2cr", "tccr", "doc2blk", "docind"}
 	if i == len(toks) {
 		return append(all, "endc")
 	}
@@ -195,7 +197,7 @@ func allowedKinds(toks []tok, i int) []string {
 	}
 	if i >= 2 && toks[i-2].S == "error" && isKw(toks[i].S) {
 		// a typeless error ends with its line
-		return []string{"lf", "crlf", "tc", "cl", "ec", "doc1", "doc2", "docblank", "doc1cr", "doc2cr", "tccr"}
+		return []string{"lf", "crlf", "tc", "cl", "ec", "doc1", "doc2", "docblank", "doc1cr", "doc2cr", "tccr", "doc2blk", "docind"}
 	}
 	if !punct[toks[i-1].S] && !punct[toks[i].S] {
 		return all[1:]
